@@ -6,7 +6,11 @@ A case is a plain-JSON value
                                     other zone, other main time unit),
    'prices': [{'T', 'form', 'data': {key: [floats]}, 'index_grid'?}]   (index = price id; forms: dict of arrays,
                                     dict of lists, dict of Series, DataFrame with RangeIndex / DatetimeIndex),
-   'history': [call, ...]}
+   'history': [call, ...],
+   'stream'?: 'freq' | 'data'  (which generator made the case; informative only)}
+Generators: gen_case (general), gen_state_case (slot logic), gen_freq_case (assets with an own frequency equal to the step of one
+of the grids, in any spelling, over finer / coarser / equal grids), gen_data_case (plant / CHP parameters keyed into the price data,
+repeated set-ups of the same portfolio on the same grid object with several data sets).
 A call is {'op': ..., ...} with op one of
   asset_setup {asset, grid, reuse, prices}      asset.setup_optim_problem(prices, tg)
   set_timegrid {asset, grid, reuse}             asset.set_timegrid(tg)
@@ -216,12 +220,23 @@ def gen_case(rnd, tmax=10, hist_len=None):
     vary_forms(rnd, base)
     g0 = {k: v for k, v in base['grid'].items()}
     grids = [g0] + grid_variants(rnd, g0, rnd.randint(1, 3))
+    return finish_case(rnd, base, grids, hist_len)
+
+
+# cut points of the operation table of `finish_case` (cumulative probabilities, in the order of the branches there)
+CUTS = (0.2, 0.28, 0.36, 0.58, 0.68, 0.72, 0.78, 0.86, 0.90, 0.94, 0.97)
+# the same table with the weight on repeated set-ups of the whole portfolio (plain, split, cost samples, io.optimize)
+CUTS_PF = (0.08, 0.12, 0.16, 0.56, 0.66, 0.72, 0.82, 0.90, 0.93, 0.96, 0.98)
+
+
+def finish_case(rnd, base, grids, hist_len=None, n_price_sets=(1, 2), reuse_p=0.6, cuts=CUTS, end_cut=0.75, mismatch_p=0.07):
+    """price containers for every grid and a random history over `base` and `grids` (see the module text for the calls)"""
     Ts = [_T(g) for g in grids]
     keys = list(base['prices'].keys())
     prices = [{'T': Ts[0], 'form': 'dict', 'data': {k: list(v) for k, v in base['prices'].items()}}]
     forms = ['dict', 'dict', 'dict_series', 'df_range', 'df_range', 'df_time', 'dict_list']
     for gid, T in enumerate(Ts):
-        for _ in range(rnd.randint(1, 2)):
+        for _ in range(rnd.randint(*n_price_sets)):
             p = {'T': T, 'form': rnd.choice(forms), 'data': {k: [rnd.choice(base['prices'][k]) for _ in range(T)] for k in keys}}
             if rnd.random() < 0.3 and keys:
                 # strictly increasing series: interpolation / re-indexing errors become visible
@@ -236,7 +251,7 @@ def gen_case(rnd, tmax=10, hist_len=None):
     n_calls = hist_len or rnd.randint(2, 8)
     hist = []
 
-    def pick_prices(gid, mismatch=0.07):
+    def pick_prices(gid, mismatch=mismatch_p):
         ok = [i for i, p in enumerate(prices) if p['T'] == Ts[gid]]
         if rnd.random() < mismatch or not ok:
             return rnd.randrange(len(prices))
@@ -247,19 +262,19 @@ def gen_case(rnd, tmax=10, hist_len=None):
     have_res = False
     for i in range(n_calls):
         gid = rnd.randrange(len(grids))
-        reuse = rnd.random() < 0.6
+        reuse = rnd.random() < reuse_p
         r = rnd.random()
         last = (i == n_calls - 1)
-        if last and r > 0.75:
-            r = rnd.random() * 0.75         # a history ends with a set-up call
-        if r < 0.2:
+        if last and r > end_cut:
+            r = rnd.random() * end_cut      # a history ends with a set-up call
+        if r < cuts[0]:
             c = {'op': 'asset_setup', 'asset': rnd.choice(names)[0], 'grid': gid, 'reuse': reuse, 'prices': pick_prices(gid)}
-        elif r < 0.28:
+        elif r < cuts[1]:
             hist.append({'op': 'set_timegrid', 'asset': rnd.choice(names)[0], 'grid': gid, 'reuse': reuse})
             c = {'op': 'asset_noarg', 'asset': hist[-1]['asset'], 'prices': pick_prices(gid, 0)}
-        elif r < 0.36:
+        elif r < cuts[2]:
             c = {'op': 'asset_noarg', 'asset': rnd.choice(names)[0], 'prices': pick_prices(gid, 0.0)}
-        elif r < 0.58:
+        elif r < cuts[3]:
             c = {'op': 'pf_setup', 'grid': gid, 'reuse': reuse, 'prices': pick_prices(gid)}
             if rnd.random() < 0.2:
                 c['skip'] = rnd.sample(base['nodes'], 1)
@@ -267,23 +282,23 @@ def gen_case(rnd, tmax=10, hist_len=None):
                 c['fix'] = {'form': rnd.choice(['mask_list', 'mask_np', 'date']), 'k': rnd.randint(1, max(1, Ts[gid] - 1))}
             if rnd.random() < 0.1:
                 c['noarg'] = True
-        elif r < 0.68:
+        elif r < cuts[4]:
             c = {'op': 'pf_split', 'grid': gid, 'reuse': reuse, 'prices': pick_prices(gid), 'interval': T_of_interval(gid)}
-        elif r < 0.72:
+        elif r < cuts[5]:
             ok = [j for j, p in enumerate(prices) if p['T'] == Ts[gid] and p['form'] in ('dict', 'dict_series', 'df_range')]
             c = {'op': 'cost_samples', 'grid': gid, 'reuse': reuse, 'prices': [rnd.choice(ok) for _ in range(2)] if ok else [0]}
-        elif r < 0.78:
+        elif r < cuts[6]:
             c = {'op': 'io_optimize', 'grid': gid, 'reuse': reuse, 'prices': pick_prices(gid, 0)}
             if rnd.random() < 0.5:
                 c['interval'] = T_of_interval(gid)
-        elif r < 0.86:
+        elif r < cuts[7]:
             c = {'op': 'optimize', 'soft': rnd.random() < 0.5}
-        elif r < 0.90:
+        elif r < cuts[8]:
             c = {'op': 'extract'}
-        elif r < 0.94:
+        elif r < cuts[9]:
             st = [n for n, t, tp in names if t == 'Storage']
             c = {'op': 'fill_level', 'asset': rnd.choice(st)} if st and rnd.random() < 0.6 else {'op': 'dcf', 'asset': rnd.choice(names)[0]}
-        elif r < 0.97:
+        elif r < cuts[10]:
             ok = [j for j, p in enumerate(prices) if p['form'] in ('dict', 'dict_series', 'df_range')]
             c = {'op': 'make_slp', 'k': rnd.randint(1, 3), 'prices': [rnd.choice(ok)] if ok else [0]}
         else:
@@ -294,6 +309,167 @@ def gen_case(rnd, tmax=10, hist_len=None):
             if rnd.random() < 0.6:
                 hist.append({'op': rnd.choice(['extract', 'extract', 'dcf', 'fill_level']), 'asset': rnd.choice(names)[0]})
     return {'base': base, 'grids': grids, 'prices': prices, 'history': hist}
+
+
+# ----- stream "freq": assets with an own frequency over grids of the same / a finer / a coarser step
+# step length in seconds -> accepted spellings of that frequency
+SPELL = {900: ['15min', '900s'], 1800: ['30min', '1800s'], 3600: ['h', '1h', '60min', '3600s'], 7200: ['2h', '120min'],
+         10800: ['3h', '180min'], 14400: ['4h', '240min'], 21600: ['6h', '360min'], 28800: ['8h', '480min'],
+         43200: ['12h', '720min'], 86400: ['d', '1d', '24h']}
+FREQ_TYPES = ('SimpleContract', 'Contract', 'Transport', 'Storage', 'MultiCommodityContract', 'ExtendedTransport')
+PLANT_TYPES = ('Plant', 'CHPAsset', 'CHPAsset_with_min_load_costs')
+FREQ_GRIDS = [g for g in gen.GRIDS if g[0] != '15min']
+
+
+def freq_grid_variants(rnd, g0, n, tmax=32):
+    """grids over (about) the horizon of g0 whose step is a divisor / a multiple of g0's step or the same step, the frequency written
+    in any accepted spelling; some also shifted or shortened by whole steps of g0"""
+    out = []
+    step0 = g0['step_s']
+    s0, e0 = pd.Timestamp(g0['start']), pd.Timestamp(g0['end'])
+    T0 = g0['T_nominal']
+    tot = T0 * step0
+    tries = 0
+    while len(out) < n and tries < 40:
+        tries += 1
+        g = {k: g0[k] for k in ('start', 'end', 'freq', 'unit', 'tz', 'step_s')}
+        kind = rnd.choice(['finer', 'finer', 'finer', 'coarser', 'respell', 'same'])
+        if kind == 'finer':
+            cands = [s for s in SPELL if s < step0 and step0 % s == 0 and tot // s <= tmax]
+        elif kind == 'coarser':
+            cands = [s for s in SPELL if s > step0 and s % step0 == 0 and tot % s == 0]
+        else:
+            cands = [step0]
+        if not cands:
+            continue
+        g['step_s'] = rnd.choice(cands)
+        if kind != 'same':
+            sp = [f for f in SPELL[g['step_s']] if not (kind == 'respell' and f == g0['freq'])]
+            g['freq'] = rnd.choice(sp)
+        r = rnd.random()
+        st0 = pd.Timedelta(seconds=step0)
+        if r < 0.2:
+            k = rnd.choice([-2, -1, 1, 2])
+            g['start'], g['end'] = gen.iso(s0 + k * st0), gen.iso(e0 + k * st0)
+        elif r < 0.35 and T0 >= 3:
+            a = rnd.randint(0, T0 - 2)
+            g['start'], g['end'] = gen.iso(s0 + a * st0), gen.iso(s0 + rnd.randint(a + 1, T0) * st0)
+        try:
+            gen.fix_grid(g)
+        except Exception:
+            continue
+        if g['T_nominal'] < 1 or _T(g) in (None, 0) or _T(g) > tmax:
+            continue
+        g['kind'] = kind
+        out.append(g)
+    return out
+
+
+def vary_freq(rnd, base, grids):
+    """own frequencies: every asset that accepts `freq` gets, with probability 1/2, the step of one of the grids of the case (the step
+    of the base grid twice as likely) in one of its spellings; the plant classes (which accept only the grid's own frequency string)
+    rarely the frequency string of one of the grids"""
+    steps = [grids[0]['step_s']] + [g['step_s'] for g in grids]
+    for a in scen.all_asset_specs(base):
+        args = a.get('args', {})
+        if a['type'] in FREQ_TYPES and not any(k in args for k in ('block_size', 'max_store_duration', 'periodicity')):
+            r = rnd.random()
+            if r < 0.5:
+                args['freq'] = rnd.choice(SPELL[rnd.choice(steps)])
+            elif r < 0.6:
+                args.pop('freq', None)
+        elif a['type'] in PLANT_TYPES and rnd.random() < 0.15:
+            args['freq'] = rnd.choice(grids)['freq']
+    return base
+
+
+def gen_freq_case(rnd):
+    """histories over assets WITH AN OWN FREQUENCY equal to the step of one of the grids of the case (spelled like the grid or
+    differently: 'h' / '60min' / '3600s', 'd' / '1d' / '24h'), the grids being finer / coarser / equal variants of one horizon"""
+    kinds = ['simple', 'simple', 'contract', 'transport', 'ext_transport', 'storage', 'storage2', 'multi', 'scaled', 'structured',
+             'orderbook', 'plant']
+    base = gen.gen_portfolio(rnd, kinds=kinds, tmax=6, tz_prob=0.15, allow_mip=rnd.random() < 0.3, max_assets=rnd.choice([1, 2, 3]),
+                             allow_freq=rnd.random() < 0.5, allow_periodic=False, grids=FREQ_GRIDS, allow_blocks=False)
+    vary_forms(rnd, base)
+    g0 = {k: v for k, v in base['grid'].items()}
+    grids = [g0] + freq_grid_variants(rnd, g0, rnd.randint(1, 3))
+    vary_freq(rnd, base, grids)
+    case = finish_case(rnd, base, grids, mismatch_p=0.03)
+    case['stream'] = 'freq'
+    return case
+
+
+# ----- stream "data": parameters given as KEYS into the price data, the same portfolio and grid OBJECT set up with several data sets
+# parameter -> (values of the series, may the parameter be added when the generator left it out: 'fuel' = only with a fuel node)
+KEY_PARAMS = {
+    'fuel_efficiency': ([0.25, 0.4, 0.5, 0.8, 1.0], 'fuel'),
+    'consumption_if_on': ([0.125, 0.25, 0.5, 1.0], 'fuel-mip'),
+    'start_fuel': ([0.5, 1.0, 1.5, 2.0], 'fuel-mip'),
+    'conversion_factor_power_heat': ([0.25, 0.5, 1.0, 2.0], 'chp'),
+    'max_share_heat': ([0.25, 0.5, 1.0, 2.0], 'chp'),
+    'start_costs': ([0.5, 1.0, 2.5, 4.0], 'mip'),
+    'running_costs': ([0.125, 0.5, 1.0], 'mip'),
+    'min_load_threshhold': ([0.5, 1.0, 2.0, 3.0], None),
+    'min_load_costs': ([0.5, 1.0, 2.0, 3.0], None),
+}
+
+
+def vary_data_keys(rnd, base, allow_mip):
+    """parameters of the plant classes that `make_vector` accepts as scalar, interval dict or KEY into the prices: scalars are
+    re-expressed as a key (the series goes into base['prices'], so every price set of the case carries its own values) or as an
+    interval dict; left-out parameters are added in these forms; plants / CHPs without fuel node get one (a free outer node) in 7 of 10 cases"""
+    g = base['grid']
+    T = len(next(iter(base['prices'].values()))) if base['prices'] else _T(g)
+    inner_nodes = {n for a in base['assets'] for n in a.get('inner_nodes', [])}
+    for a in scen.all_asset_specs(base):
+        if a['type'] not in PLANT_TYPES:
+            continue
+        args = a['args']
+        chp = a['type'] != 'Plant'
+        fuel = len(a['nodes']) == (3 if chp else 2)
+        if not fuel and rnd.random() < 0.7:
+            # a fuel node (last of the asset's nodes) out of the outer nodes of the portfolio the asset does not use yet
+            free = [n for n in base['nodes'] if n not in a['nodes'] and n not in inner_nodes]
+            if free:
+                a['nodes'] = list(a['nodes']) + [rnd.choice(free)]
+                fuel = True
+        for par, (vals, cond) in KEY_PARAMS.items():
+            have = par in args and isinstance(args[par], (int, float))
+            if not have:
+                ok = {'fuel': fuel, 'fuel-mip': fuel and allow_mip, 'chp': chp, 'mip': allow_mip, None: False}[cond]
+                if par in args or not ok or rnd.random() >= 0.5:
+                    continue
+            r = rnd.random()
+            if r < 0.6:
+                key = '%s_%s' % (par, a['name'])
+                base['prices'][key] = [rnd.choice(vals) for _ in range(T)]
+                args[par] = key
+            elif r < 0.75:
+                args[par] = gen.interval_dict(rnd, g, min(vals), max(vals))
+            elif not have:
+                args[par] = rnd.choice(vals)
+    return base
+
+
+def gen_data_case(rnd):
+    """histories of repeated set-ups of the SAME portfolio on the SAME grid object (1-2 grids, reuse probability 0.9) with 2-3 data
+    sets per grid, over portfolios around plants / CHPs with fuel and heat nodes whose efficiencies, conversion factors, fuel and
+    cost parameters are keys into the data"""
+    kinds = ['plant', 'plant', 'plant', 'chp', 'chp', 'chp', 'simple', 'contract', 'transport', 'storage', 'multi', 'structured']
+    allow_mip = rnd.random() < 0.4
+    # 3 of 4 cases: portfolios are drawn until one holds a plant / CHP with a parameter keyed into the data (at most 5 draws)
+    for _ in range(rnd.choice([1, 5, 5, 5])):
+        base = gen.gen_portfolio(rnd, kinds=kinds, tmax=8, tz_prob=0.15, allow_mip=allow_mip, max_assets=rnd.choice([1, 2, 3]),
+                                 nodes_max=3, allow_freq=rnd.random() < 0.2, allow_periodic=False, allow_blocks=False)
+        vary_data_keys(rnd, base, allow_mip)
+        if any(a['type'] in PLANT_TYPES and any(isinstance(a['args'].get(k), str) for k in KEY_PARAMS) for a in base['assets']):
+            break
+    vary_forms(rnd, base)
+    g0 = {k: v for k, v in base['grid'].items()}
+    grids = [g0] + grid_variants(rnd, g0, rnd.randint(0, 1))
+    case = finish_case(rnd, base, grids, hist_len=rnd.randint(3, 9), n_price_sets=(2, 3), reuse_p=0.9, cuts=CUTS_PF, end_cut=0.82, mismatch_p=0.03)
+    case['stream'] = 'data'
+    return case
 
 
 # ===================================================================== canonical forms
@@ -1661,13 +1837,18 @@ COMPONENTS = ['history oracle: n-th set-up on the same objects vs a fresh object
               'state-model: Lean slot model (state_run) vs slots and grid pointers of the real objects after every operation, and what every builder read']
 RULE = ('random histories of 2-8 calls (asset/portfolio/split set-up with and without grid argument, skip nodes, fix windows, optimise incl. soft-then-plain, extract_output, dcf, fill_level, make_slp, to_json, '
         'cost samples, io.optimize) on the same objects over 1-3 grid variants (shifted, other frequency, zone, main time unit, same object reused or fresh) and price containers in 5 forms, plus slot-logic histories of 3-8 '
-        'operations over portfolios with windows / waccs on every level, scaled and structured assets, order books, storages and 2-3 grid objects (one shared); every history runs through the fresh-object oracle AND the state-model '
+        'operations over portfolios with windows / waccs on every level, scaled and structured assets, order books, storages and 2-3 grid objects (one shared), '
+        'plus stream "freq": the same kind of histories over assets WITH AN OWN FREQUENCY equal to the step of one of the grids of the case (written like the grid\'s or differently: h / 60min / 3600s, d / 1d / 24h) '
+        'on 2-4 grids of one horizon with finer / coarser / equal step, plus stream "data": histories of 3-9 calls weighted towards repeated set-ups of the whole portfolio on the SAME grid object (1-2 grids, reuse 0.9) '
+        'with 2-3 data sets per grid, over portfolios around plants / CHPs with fuel and heat nodes whose fuel_efficiency, consumption_if_on, start_fuel, conversion_factor_power_heat, max_share_heat, start / running / '
+        'min-load costs are KEYS into the data (or interval dicts); features stream:* / case:* count these situations; every history runs through the fresh-object oracle AND the state-model '
         'comparison; features state-op:* (model calls), state-read:* / state-writer:* (which kind of window the builders read / the slots hold); non-trivial = history with >= 2 compared set-up calls; distinct by case hash')
 NEEDS_DRIVER = True
 
 
 def scenarios(seed, tier):
     n, m = (400, 250) if tier == 'quick' else (2500, 1500)
+    nf, nd = (150, 150) if tier == 'quick' else (1200, 1200)
     rnd = random.Random(seed * 7919 + 10)
     for name, c in witness_cases().items():
         yield 'witness:' + name, c
@@ -1675,13 +1856,51 @@ def scenarios(seed, tier):
         yield 'hist%d' % i, gen_case(random.Random(rnd.getrandbits(48)))
     for i in range(m):
         yield 'slots%d' % i, gen_state_case(random.Random(rnd.getrandbits(48)))
+    rnd2 = random.Random(seed * 7919 + 1010)
+    for i in range(nf):
+        yield 'freq%d' % i, gen_freq_case(random.Random(rnd2.getrandbits(48)))
+    for i in range(nd):
+        yield 'data%d' % i, gen_data_case(random.Random(rnd2.getrandbits(48)))
+
+
+def _step_of(freq):
+    try:
+        return int(pd.Timedelta(1, freq).total_seconds())
+    except Exception:
+        try:
+            return int(pd.Timedelta(freq).total_seconds())
+        except Exception:
+            return None
+
+
+def case_features(case):
+    """what a case holds of the situations the streams 'freq' and 'data' aim at (read off the spec, for the feature histogram)"""
+    f = []
+    if case.get('stream'):
+        f.append('stream:' + case['stream'])
+    steps = [g.get('step_s') for g in case['grids']]
+    for a in scen.all_asset_specs(case['base']):
+        fr = a.get('args', {}).get('freq')
+        if fr is not None and _step_of(fr) in steps:
+            f.append('case:asset-freq=step-of-a-grid' + (',written-differently' if fr not in [g['freq'] for g in case['grids']] else ''))
+            if min(s for s in steps if s) < _step_of(fr):
+                f.append('case:asset-freq=step-of-a-grid,finer-grid-present')
+        if a['type'] in PLANT_TYPES:
+            for k in KEY_PARAMS:
+                if isinstance(a.get('args', {}).get(k), str):
+                    f.append('case:data-key:' + k)
+    seq = [(h['grid'], h.get('reuse'), h['prices']) for h in case['history']
+           if h['op'] in ('pf_setup', 'io_optimize') and not h.get('interval') and not h.get('noarg')]
+    if any(a[0] == b[0] and b[1] and a[2] != b[2] for a, b in zip(seq, seq[1:])):
+        f.append('case:same-grid-object-then-other-data')
+    return sorted(set(f))
 
 
 def run_case(case, drv):
     res = execute(case)
     viol = oracle(case, res, do_shrink=True)
-    out = {'evaluated': max(1, res.get('n_compared', 1)), 'nontrivial': res.get('n_compared', 0) >= 2, 'features': list(res.get('features', [])),
-           'disagreements': [], 'violations': []}
+    out = {'evaluated': max(1, res.get('n_compared', 1)), 'nontrivial': res.get('n_compared', 0) >= 2,
+           'features': list(res.get('features', [])) + case_features(case), 'disagreements': [], 'violations': []}
     for v in viol:
         f = dict(v.get('facts', {}))
         f['class'] = classify(v)
